@@ -48,6 +48,8 @@ def norm_edge(e):
     e["failed"] = sorted(e["failed"])
     if "due" in e["act"]:
         e["act"]["due"] = sorted(e["act"]["due"])
+    e["sk"], e["dk"] = skey(e["src"]), skey(e["dst"])
+    e["ck"] = json.dumps(e["cfg"], sort_keys=True)
     return e
 
 
@@ -210,85 +212,96 @@ def edge_stats(edges):
     return c
 
 
-def build_tours(edges, uni, rng, maxlen, select=None):
-    """Greedy walks that cover every selected edge (default: all), one family
-    per configuration; they may travel over any edge."""
-    by_cfg = collections.defaultdict(list)
-    for i, e in enumerate(edges):
-        e["eid"] = i
-        by_cfg[json.dumps(e["cfg"], sort_keys=True)].append(e)
-    want = None if select is None else {e["eid"] for e in select}
-    tours = []
-    for ck in sorted(by_cfg):
-        es = by_cfg[ck]
-        boot = [e for e in es if e["act"]["a"] == "boot"]
-        if len(boot) != 1:
-            raise vlib.Inconclusive("no unique boot edge for configuration " + ck)
-        init = skey(boot[0]["dst"])
-        out = collections.defaultdict(list)
-        for e in es:
-            if e["act"]["a"] != "boot":
-                out[skey(e["src"])].append(e)
-        pending = collections.defaultdict(list)
-        for k in out:
-            rng.shuffle(out[k])
-            pending[k] = [e for e in out[k] if want is None or e["eid"] in want]
-        left = sum(len(v) for v in pending.values())
+class Graph:
+    """The emitted transition graph of one universe, per configuration."""
 
-        def nearest(cur):
-            # BFS over states to one that still has an uncovered outgoing edge.
-            prev = {cur: None}
-            q = collections.deque([cur])
-            while q:
-                k = q.popleft()
-                if pending.get(k):
-                    path = []
-                    while prev[k] is not None:
-                        pk, pe = prev[k]
-                        path.append(pe)
-                        k = pk
-                    return list(reversed(path))
-                for e in out.get(k, []):
-                    d = skey(e["dst"])
-                    if d not in prev:
-                        prev[d] = (k, e)
-                        q.append(d)
-            return None
+    def __init__(self, edges, uni):
+        self.uni = uni
+        self.edges = edges
+        self.by_cfg = collections.defaultdict(list)
+        for i, e in enumerate(edges):
+            e["eid"] = i
+            self.by_cfg[e["ck"]].append(e)
+        self.init, self.out = {}, {}
+        for ck, es in self.by_cfg.items():
+            boot = [e for e in es if e["act"]["a"] == "boot"]
+            if len(boot) != 1:
+                raise vlib.Inconclusive("no unique boot edge for configuration " + ck)
+            self.init[ck] = boot[0]["dk"]
+            out = collections.defaultdict(list)
+            for e in es:
+                if e["act"]["a"] != "boot":
+                    out[e["sk"]].append(e)
+            self.out[ck] = out
 
-        cur, steps, fresh = init, [], 0
-        while left:
-            if not pending.get(cur):
-                path = nearest(cur)
-                if path is None:
-                    if cur == init and not steps:
+    def path(self, ck, start, goal):
+        """Shortest edge path from state start to a state satisfying goal."""
+        prev = {start: None}
+        q = collections.deque([start])
+        while q:
+            k = q.popleft()
+            if goal(k):
+                p = []
+                while prev[k] is not None:
+                    k, e = prev[k]
+                    p.append(e)
+                return list(reversed(p))
+            for e in self.out[ck].get(k, []):
+                if e["dk"] not in prev:
+                    prev[e["dk"]] = (k, e)
+                    q.append(e["dk"])
+        return None
+
+    def tour(self, n, steps):
+        return {"id": n, "cfg": steps[0]["cfg"], "lists": self.uni["block"] + self.uni["allow"],
+                "block": self.uni["block"], "atoms": ["R1", "R2"], "steps": steps}
+
+    def tours(self, rng, maxlen, select=None):
+        """Greedy walks that cover every selected edge (default: all); they may
+        travel over any edge.  Files are never deleted, so states without a file
+        are reachable from a fresh start only: a walk ends when nothing uncovered
+        is reachable, or when it gets long."""
+        want = None if select is None else {e["eid"] for e in select}
+        walks = []
+        for ck in sorted(self.by_cfg):
+            out, init = self.out[ck], self.init[ck]
+            pending = {}
+            for k in sorted(out):
+                es = [e for e in out[k] if want is None or e["eid"] in want]
+                rng.shuffle(es)
+                pending[k] = es
+            left = sum(len(v) for v in pending.values())
+            cur, steps, fresh = init, [], 0
+            while left:
+                if not pending.get(cur):
+                    p = self.path(ck, cur, lambda k: bool(pending.get(k)))
+                    if p is None and cur == init and not steps:
                         raise vlib.Inconclusive("edges unreachable from the initial state")
-                    # files are never deleted: states without a file are reachable from a fresh start only
-                    path = []
-                if not path or len(steps) + len(path) >= maxlen:
-                    if fresh:
-                        tours.append(steps)
-                    cur, steps, fresh = init, [], 0
+                    if not p or len(steps) + len(p) >= maxlen:
+                        if fresh:
+                            walks.append(steps)
+                        cur, steps, fresh = init, [], 0
+                        continue
+                    steps += p
+                    cur = p[-1]["dk"]
                     continue
-                for e in path:
-                    steps.append(e)
-                    cur = skey(e["dst"])
-                continue
-            e = pending[cur].pop()
-            left -= 1
-            fresh += 1
-            steps.append(e)
-            cur = skey(e["dst"])
-        if fresh:
-            tours.append(steps)
-        # cut the uncovering tail of each tour
-    res = []
-    for n, steps in enumerate(tours):
-        if want is not None:
-            last = max(i for i, e in enumerate(steps) if e["eid"] in want)
-            steps = steps[:last + 1]
-        res.append({"id": n, "cfg": steps[0]["cfg"], "lists": uni["block"] + uni["allow"], "block": uni["block"],
-                    "atoms": ["R1", "R2"], "steps": steps})
-    return res
+                e = pending[cur].pop()
+                left -= 1
+                fresh += 1
+                steps.append(e)
+                cur = e["dk"]
+            if fresh:
+                walks.append(steps)
+        res = []
+        for n, steps in enumerate(walks):
+            if want is not None:   # drop a tail that only travels
+                steps = steps[:max(i for i, e in enumerate(steps) if e["eid"] in want) + 1]
+            res.append(self.tour(n, steps))
+        return res
+
+    def shortest_to(self, e):
+        p = self.path(e["ck"], self.init[e["ck"]], lambda k: k == e["sk"])
+        return None if p is None else p + [e]
 
 
 def tour_json(t):
@@ -339,62 +352,106 @@ def what_step(edge, row):
 
 
 def refresh_replay(ctx, edges, uni, tag, rng, budget=None):
+    g = Graph(edges, uni)
     select = None
     moves = [e for e in edges if e["act"]["a"] != "boot"]
     if budget is not None and len(moves) > budget:
         select = rng.sample(moves, budget)
-    tours = build_tours(edges, uni, rng, 250, select)
+    tours = g.tours(rng, 250, select)
     rows, summ = run_tours(ctx, tours, tag)
     by_id = {t["id"]: t for t in tours}
     bad = [r for r in rows if r.get("kind") == "bad"]
     skipped = [r for r in rows if r.get("kind") == "skip"]
     truncated = sum(r.get("lost", 0) for r in rows if r.get("kind") == "truncated")
     res = {"tours": len(tours), "steps": summ["steps"], "bad": len(bad), "skipped": len(skipped),
-           "truncated": truncated, "known": 0, "contact_mismatch": 0, "flaky": 0, "unreproduced_unchecked": 0,
+           "truncated": truncated, "known": 0, "known_not_rerun": 0, "contact_mismatch": 0, "flaky": 0,
            "planned": sum(len(t["steps"]) for t in tours),
            "selected": len(moves) if select is None else len(select), "edges": len(moves)}
     if skipped:
         ctx.log("skipped tours, first: %s" % json.dumps(skipped[0])[:500])
     if not bad:
         return res
-    # Reproduce in isolation: the prefix of the same tour up to the failing step,
-    # alone (same tour id = same concretisation), a second time.  Disagreements
-    # that look exactly alike (same edge, same differing fields) are reproduced once.
-    groups = collections.OrderedDict()
+    # Reproduce in isolation, a second time: the shortest history from a fresh
+    # start to the source state of the edge, then the edge; if that does not
+    # show it, the prefix of the original tour.  Steps that match the narrow
+    # classifier of an open known finding are re-run for a sample only.
+    known_open = {k for (p, k), v in vlib.known_findings().items() if p == ctx.prop and v.get("status") == "open"}
+    todo, sampled = [], collections.Counter()
     for r in bad:
         edge = by_id[r["tour"]]["steps"][r["step"]]
-        groups.setdefault((edge["eid"], tuple(sorted(r["diffs"]))), []).append(r)
-    reps = [rs[0] for rs in groups.values()]
-    cap = 1500
-    res["unreproduced_unchecked"] = max(0, len(reps) - cap)
-    iso = []
-    for n, r in enumerate(reps[:cap]):
-        t = by_id[r["tour"]]
-        iso.append(dict(t, steps=t["steps"][:r["step"] + 1], row=r, iso=n))
-    rows2, _ = run_tours(ctx, iso, tag + "_iso")
-    again = collections.defaultdict(list)
-    for r2 in rows2:
-        if r2.get("kind") == "bad":
-            again[(r2["tour"], r2["step"])].append(r2)
-    for t in iso:
-        r = t["row"]
-        edge = t["steps"][r["step"]]
-        same = len(groups[(edge["eid"], tuple(sorted(r["diffs"])))])
-        rep = [r2 for r2 in again.get((r["tour"], r["step"]), []) if sorted(r2["diffs"]) == sorted(r["diffs"])]
-        if not rep:
-            res["flaky"] += same
-            continue
-        if all(d.startswith("hits:") for d in r["diffs"]):
-            res["contact_mismatch"] += same
-            continue
         key = classify_step(edge, r)
-        rec = {"kind": "tour", "universe": tag, "cfg": t["cfg"], "lists": t["lists"], "block": t["block"],
-               "tour": t["id"], "diffs": r["diffs"], "observed": r["got"],
-               "steps": [{"act": e["act"], "script": e["script"], "dst": proj(e["dst"]), "rew": e["rew"],
-                          "asis": proj(e["asis"])} for e in t["steps"]]}
-        if ctx.disagreement(key, rec, what_step(edge, r)) == "known":
-            res["known"] += same
+        if key in known_open:
+            sampled[key] += 1
+            if sampled[key] > 25:
+                res["known"] += 1
+                res["known_not_rerun"] += 1
+                continue
+        todo.append((r, edge, key))
+    if len(todo) > 400:
+        raise vlib.Inconclusive("%d disagreements to reproduce one by one (first: %s)" % (len(todo), what_step(todo[0][1], todo[0][0])[:600]))
+
+    def rerun(items, stage):
+        iso = [g.tour(n, steps) for n, (steps, _) in enumerate(items)]
+        rows2, _ = run_tours(ctx, iso, "%s_iso%d" % (tag, stage))
+        hit = {}
+        for r2 in rows2:
+            if r2.get("kind") == "bad":
+                hit.setdefault((r2["tour"], r2["step"]), r2)
+        return [hit.get((n, len(steps) - 1)) for n, (steps, _) in enumerate(items)]
+
+    short = [(g.shortest_to(edge), (r, edge, key)) for r, edge, key in todo]
+    got = rerun(short, 1)
+    retry = []
+    for (steps, item), r2 in zip(short, got):
+        r, edge, key = item
+        if r2 is not None and sorted(r2["diffs"]) == sorted(r["diffs"]):
+            item = (r2, edge, key)
+            confirm(ctx, res, tag, g, steps, item)
+        else:
+            retry.append((by_id[r["tour"]]["steps"][:r["step"] + 1], item))
+    if retry:
+        got = rerun(retry, 2)
+        for (steps, item), r2 in zip(retry, got):
+            r, edge, key = item
+            if r2 is not None and sorted(r2["diffs"]) == sorted(r["diffs"]):
+                confirm(ctx, res, tag, g, steps, (r2, edge, key))
+            else:
+                res["flaky"] += 1
     return res
+
+
+def confirm(ctx, res, tag, g, steps, item):
+    r, edge, key = item
+    if all(d.startswith("hits:") for d in r["diffs"]):
+        res["contact_mismatch"] += 1
+        return
+    rec = {"kind": "tour", "universe": tag, "cfg": edge["cfg"], "lists": g.uni["block"] + g.uni["allow"],
+           "block": g.uni["block"], "diffs": r["diffs"], "observed": r["got"],
+           "steps": [{"act": e["act"], "script": e["script"], "dst": proj(e["dst"]), "rew": e["rew"],
+                      "asis": proj(e["asis"])} for e in steps]}
+    if ctx.disagreement(key, rec, what_step(edge, r)) == "known":
+        res["known"] += 1
+
+
+def literal_history(ctx, edges):
+    """TLC's counterexample to FailureIsNoOp under the as-is model (the last
+    edge emitted by FilterRefresh.asis.cfg), walked on the real DNSFilter with
+    the as-is states as expectation.  Informational: says whether today's code
+    really shows a failed refresh changing the rules in force."""
+    if not edges:
+        return {"replayed": False}
+    v = edges[-1]
+    g = Graph(edges, UNIVERSES["FilterRefresh.three.cfg"])
+    steps = g.shortest_to(v)
+    changed = [l for l in v["failed"] if sorted(v["dst"]["eng"][l]) != sorted(v["src"]["eng"][l])]
+    if steps is None or not changed:
+        return {"replayed": False}
+    rows, summ = run_tours(ctx, [g.tour(0, steps)], "literal", shards=1)
+    bad = [r for r in rows if r.get("kind") == "bad"]
+    return {"replayed": True, "code_follows_counterexample": not bad and summ["steps"] == len(steps),
+            "history": [{"act": e["act"], "script": {l: [b["k"], " ".join(b["t"])] for l, b in e["script"].items()},
+                         "eng_after": {l: sorted(x) for l, x in e["dst"]["eng"].items()}} for e in steps],
+            "failed_list_whose_rules_in_force_changed": changed}
 
 
 def refresh_trace(ctx):
@@ -484,9 +541,10 @@ def run(ctx):
 
     # ---- refresh half: the specification's own negative configuration
     neg = ctx.tlc("FilterRefresh", "FilterRefresh.asis.cfg", workers=1, timeout=600, allow_fail=True)
-    if '"FailureIsNoOp"' not in neg["out"] or "Assert evaluated to FALSE" not in neg["out"].replace("first argument of ", ""):
+    if '"FailureIsNoOp"' not in neg["out"] or "Assert evaluated to FALSE" not in neg["out"]:
         raise vlib.Inconclusive("FilterRefresh.asis.cfg no longer violates FailureIsNoOp: the as-is model lost its meaning")
     ctx.tlc_runs[-1]["violated"] = "FailureIsNoOp (expected: negative configuration)"
+    literal = literal_history(ctx, [norm_edge(e) for e in neg["vectors"]])
 
     # ---- refresh half, direction A
     edges = refresh_edges(ctx, "FilterRefresh.mc.cfg", coverage=True)
@@ -516,8 +574,6 @@ def run(ctx):
         raise vlib.Inconclusive("tour harness skipped %d tours, %d contact mismatches" % (skipped, contact))
     if steps_a + res2["truncated"] + res3["truncated"] < res2["planned"] + res3["planned"]:
         raise vlib.Inconclusive("tours walked %d of %d planned steps" % (steps_a, res2["planned"] + res3["planned"]))
-    if res2["unreproduced_unchecked"] + res3["unreproduced_unchecked"]:
-        raise vlib.Inconclusive("too many distinct disagreements to reproduce one by one")
     nontrivial_edges = sum(1 for e in edges + edges3 if e["act"]["a"] == "refresh" and (e["failed"] or e["rew"]))
     trace_steps = sum(1 for r in rrows if r.get("ev") == "step")
     samples = [
@@ -540,10 +596,12 @@ def run(ctx):
         "refresh_tours": res2["tours"] + res3["tours"], "refresh_steps_planned": res2["planned"] + res3["planned"],
         "refresh_bad_steps": res2["bad"] + res3["bad"], "refresh_flaky": res2["flaky"] + res3["flaky"] + resb["flaky"],
         "refresh_known_finding_steps": res2["known"] + res3["known"] + resb["known"],
+        "refresh_known_finding_steps_not_rerun": res2["known_not_rerun"] + res3["known_not_rerun"],
         "truncated_by_known_finding": res2["truncated"] + res3["truncated"],
         "refresh_trace_steps": trace_steps, "refresh_trace_rejected": len(verdict["bad"]),
         "refresh_trace_asis": len(verdict["asis"]),
         "negative_config": "FilterRefresh.asis.cfg violates FailureIsNoOp as expected",
+        "negative_config_counterexample_on_real_code": literal,
         "exhaustive": not ctx.quick, "samples": samples,
     }
     return ctx.finish("model_checking", cov, assumptions=[
@@ -566,7 +624,7 @@ def replay(ctx, path):
         print(json.dumps({"text": t, "admissible": rec.get("adm"), "observed": [b["got"] for b in bad] or "admissible"}, indent=1))
         return 1 if bad else 0
     if kind == "tour":
-        tour = {"id": rec["tour"], "cfg": rec["cfg"], "lists": rec["lists"], "block": rec["block"], "atoms": ["R1", "R2"],
+        tour = {"id": 0, "cfg": rec["cfg"], "lists": rec["lists"], "block": rec["block"], "atoms": ["R1", "R2"],
                 "steps": [{"act": s["act"], "script": s["script"], "dst": s["dst"], "rew": s["rew"]} for s in rec["steps"]]}
         vin, vout = ctx.path("c15_replay_in.ndjson"), ctx.path("c15_replay_out.ndjson")
         vlib.write_ndjson(vin, [tour])
